@@ -318,6 +318,21 @@ def monitor_in_policy(c):
                 "client" if side is cl else "server", side["alpn"], alpn_names(cc), alpn_names(sc))))
     if v == 2 and (cc["ems"] == 1 or sc["ems"] == 1) and not (cl["ems"] and sv["ems"]):
         out.append(("ems-required-but-off", "EMS policy %d/%d, flags %s/%s" % (cc["ems"], sc["ems"], cl["ems"], sv["ems"])))
+    # ... and judged on the wire of THIS handshake (full or resumed): a side that requires extended master secret must not
+    # complete when the peer's hello of this handshake does not carry the extension (RFC 7627 5.2 / 5.3)
+    if v == 2:
+        EXT_EMS = 23
+        ch_has, sh_has = EXT_EMS in (c["ch"].get("exts") or []), EXT_EMS in (c["sh"].get("exts") or [])
+        if cc["ems"] == 1 and c["sh"].get("seen") and not sh_has:
+            out.append(("completes-although-ems-required-and-not-in-this-handshakes-hellos",
+                        "the client requires extended master secret and the ServerHello of this %s handshake does not carry "
+                        "the extension (server policy %d), yet both sides report an established association (EMS flags %s/%s)" % (
+                            "RESUMED" if resumed_obs(c) else "full", sc["ems"], cl["ems"], sv["ems"])))
+        if sc["ems"] == 1 and c["ch"].get("seen") and not ch_has:
+            out.append(("completes-although-ems-required-and-not-in-this-handshakes-hellos",
+                        "the server requires extended master secret and the ClientHello of this %s handshake does not carry "
+                        "the extension (client policy %d), yet both sides report an established association (EMS flags %s/%s)" % (
+                            "RESUMED" if resumed_obs(c) else "full", cc["ems"], cl["ems"], sv["ems"])))
     return out
 
 
